@@ -3,6 +3,7 @@ package main
 // Symbolic state: SSA environment, heap (per-field arrays, element memory), allocation counter.
 
 import (
+	"strconv"
 	"fmt"
 	"os"
 	"runtime"
@@ -243,7 +244,46 @@ func leafKey(l *Loc, leafPath string) string {
 	if l.Mem {
 		p = "M|"
 	}
+	if !l.Mem && l.RootT != nil {
+		_, root, path := canonField(l.RootT, joinPath(l.Path, leafPath))
+		return p + root + "|" + path
+	}
 	return p + l.Root + "|" + joinPath(l.Path, leafPath)
+}
+
+// canonField: storage of an embedded (anonymous, by-value) named struct field is the storage of the embedded type,
+// indexed by the enclosing object's reference: &outer.Embedded and outer denote the same object for the embedded
+// type's fields, which is how methods of the embedded type (called with the interior pointer) see it. Sound because an
+// object embeds a given struct type at most once.
+func canonField(rootT types.Type, path string) (types.Type, string, string) {
+	root := typeKey(rootT)
+	if path == "" {
+		return rootT, root, path
+	}
+	parts := strings.Split(path, ".")
+	var out []string
+	t := rootT
+	for i, p := range parts {
+		idx, err := strconv.Atoi(p)
+		st, ok := t.Underlying().(*types.Struct)
+		if err != nil || !ok || idx >= st.NumFields() {
+			out = append(out, parts[i:]...)
+			break
+		}
+		f := st.Field(idx)
+		if _, isStruct := f.Type().Underlying().(*types.Struct); isStruct && f.Embedded() && !isOpaqueStruct(f.Type()) {
+			if _, named := f.Type().(*types.Named); named {
+				root = typeKey(f.Type())
+				rootT = f.Type()
+				out = nil
+				t = f.Type()
+				continue
+			}
+		}
+		out = append(out, p)
+		t = f.Type()
+	}
+	return rootT, root, strings.Join(out, ".")
 }
 
 func (st *State) locAddr(l *Loc, leafPath string) string {
@@ -492,7 +532,8 @@ func fieldNames(t types.Type, path string) string {
 
 func (l *Loc) className() string {
 	if l.RootT != nil && !l.Mem {
-		return typeKey(l.RootT) + "." + fieldNames(l.RootT, l.Path)
+		rt, _, p := canonField(l.RootT, l.Path)
+		return typeKey(rt) + "." + fieldNames(rt, p)
 	}
 	return l.Root + "|" + l.Path
 }
